@@ -1,0 +1,29 @@
+//go:build verif
+
+// Contracts for encoding/text (C20): the renderer's own index expressions.  PARTIAL: no index out of
+// range, no nil-map write, no failing type assertion while rendering any value of any schema.
+package text
+
+//@ func Encoder.marshalEnum -> err
+//@   props C20
+//@   partial bounds nilmap typeassert
+//@   requires enc != nil
+
+//@ func Encoder.marshalList -> err
+//@   props C20
+//@   partial bounds nilmap typeassert
+//@   requires enc != nil
+
+//@ func Encoder.marshalFieldValue -> err
+//@   props C20
+//@   partial bounds nilmap typeassert
+//@   requires enc != nil
+
+//@ func Encoder.marshalStruct -> err
+//@   props C20
+//@   partial bounds nilmap typeassert
+//@   requires enc != nil
+
+// (codeOrderFields indexes by the schema's codeOrder values, which are a permutation of the field
+// indices in any schema the compiler emits; for a hand-made schema blob with a larger codeOrder it
+// would index out of range - a precondition on the registry contents, not put under contract.)
